@@ -29,7 +29,7 @@ STRATS = ["build", "bfs", "dfs", "block", "scc", "min"]
 
 
 def budget(tier):
-    return 400 if tier == "quick" else 4000
+    return 1000 if tier == "quick" else 10000
 
 
 def small_net(rng, prefix):
@@ -56,7 +56,10 @@ def models():
 def gen_case(rng, tier, k):
     r = rng.random()
     if r < 0.55:
-        return {"kind": "product", "a": small_net(rng, "a"), "b": small_net(rng, "b"), "strategy": rng.choice(STRATS)}
+        cfg = {}
+        if rng.random() < 0.4:
+            cfg = {"retained_set_optimization_threshold": rng.choice([0, 1, 2, 3]), "minimum_simulation_budget": rng.choice([1, 1000])}
+        return {"kind": "product", "a": small_net(rng, "a"), "b": small_net(rng, "b"), "strategy": rng.choice(STRATS), "cfg": cfg}
     if r < 0.93:
         ninp = rng.randint(1, 3)
         body = common.g_mixed(rng, nmax=4 if tier == "quick" else 5, p_core=0.3)
@@ -103,9 +106,12 @@ def run_case(case):
 def run_product(case):
     nia, oa = sem(case["a"])
     nib, ob = sem(case["b"])
-    sd = make_sd({"bnet": case["a"] + "\n" + case["b"]})
+    sd = make_sd({"bnet": case["a"] + "\n" + case["b"], "cfg": case.get("cfg", {})})
     ni = common.NetInfo(sd.network)
-    complete(sd, case["strategy"])
+    try:
+        complete(sd, case["strategy"])
+    except RuntimeError:
+        return {"fails": [], "diffs": [], "tags": ["limit-error"], "nontrivial": False}
     fails = []
     def comb(sa, sb):
         d = {}
